@@ -16,8 +16,10 @@ var _ = vrfRegister("vrfH_C03inline", vrfH_C03inline)
 
 // c03Shape: the schema planted at a position. kind: 0 string, 1 object with one string property (complex),
 // 2 array of strings, 3 array of complex objects, 4 $ref to the definition "a", 5 object with a property that is
-// itself a complex object (nesting), 6 allOf of a $ref and an object (complex)
+// itself a complex object (nesting), 6 allOf of a $ref and an object (complex), 7 allOf of a $ref with
+// additionalProperties and no properties of its own (complex: a composition, not a map)
 var c03Shapes int
+var c03AnyDangling, c03AnyComplex bool
 var c03DefA string
 
 func c03Shape(tag string, kinds int) spec.Schema {
@@ -27,16 +29,18 @@ func c03Shape(tag string, kinds int) spec.Schema {
 	obj := spec.Schema{}
 	obj.Type = spec.StringOrArray{"object"}
 	obj.Description = tag + ".obj"
-	obj.Properties = map[string]spec.Schema{c03Name(tag+".q", "q"): str}
-	// the shape of each position is concrete per run (digits of the "shapes" parameter, base 7, in planting order);
+	strE := str
+	strE.Enum = []interface{}{tag} // an enum (and no pattern anywhere): its index key moves with the schema
+	obj.Properties = map[string]spec.Schema{c03Name(tag+".q", "q"): strE}
+	// the shape of each position is concrete per run (digits of the "shapes" parameter, base 9, in planting order);
 	// what is symbolic are the names
-	k := c03Shapes % 7
-	c03Shapes /= 7
+	k := c03Shapes % 9
+	c03Shapes /= 9
 	if vrfParam("symshapes", 0) != 0 {
 		// ... or chosen by the solver among the kinds allowed by the "kinds" bit mask
-		k = vrfInt(tag+".kind", 0, 6)
+		k = vrfInt(tag+".kind", 0, 8)
 		allowed := false
-		for i := 0; i < 7; i++ {
+		for i := 0; i < 9; i++ {
 			if k == i && (kinds>>uint(i))&1 == 1 {
 				allowed = true
 			}
@@ -67,6 +71,20 @@ func c03Shape(tag string, kinds int) spec.Schema {
 		ref.Ref = spec.MustCreateRef("#/definitions/" + jsonpointer.Escape(c03DefA))
 		s.Description = tag + ".allof"
 		s.AllOf = []spec.Schema{ref, obj}
+	case 7:
+		ref := spec.Schema{}
+		ref.Ref = spec.MustCreateRef("#/definitions/" + jsonpointer.Escape(c03DefA))
+		s.Description = tag + ".allofmap"
+		s.AllOf = []spec.Schema{ref}
+		ap := str
+		s.AdditionalProperties = &spec.SchemaOrBool{Allows: true, Schema: &ap}
+	case 8:
+		// a dangling $ref (class W+ of C09): the definition has no "not" schema
+		s.Ref = spec.MustCreateRef("#/definitions/" + jsonpointer.Escape(c03DefA) + "/not")
+		c03AnyDangling = true
+	}
+	if k == 1 || k == 3 || k == 5 || k == 6 || k == 7 {
+		c03AnyComplex = true
 	}
 	return s
 }
@@ -202,8 +220,9 @@ var c03Pools = [][]string{
 }
 
 func vrfH_C03inline() {
-	kinds := vrfParam("kinds", 127)
+	kinds := vrfParam("kinds", 255)
 	c03Shapes = vrfParam("shapes", 0)
+	c03AnyDangling, c03AnyComplex = false, false
 	defA := c03Name("a", "a")
 	c03DefA = defA
 	propP := c03Name("a.p", "p")
@@ -236,7 +255,7 @@ func vrfH_C03inline() {
 		r.Description = "ok"
 		sch := c03Shape("op.200", kinds)
 		r.Schema = &sch
-		op.Responses.StatusCodeResponses = map[int]spec.Response{200: r}
+		op.Responses.StatusCodeResponses = map[int]spec.Response{vrfParam("code", 200): r}
 	}
 	if c03Has("op.default") {
 		var r spec.Response
@@ -271,15 +290,45 @@ func vrfH_C03inline() {
 	}
 	doc.Paths = &spec.Paths{Paths: map[string]spec.PathItem{pathX: pi}}
 
-	before := vrfDeepCopy(doc).(*spec.Swagger)
 	orig := map[string]bool{defA: true}
+	if cn := vrfParam("collide", 0); cn != 0 {
+		// an existing definition bears the very name the step would generate ("aP" for the property, "opAParamsBody"
+		// for the body parameter, "opAOKBody" for the 200 response): the moved schema gets an OAIGen name, which the
+		// rest of a full Flatten (stripPointersAndOAIGen) then tries to get rid of
+		name := []string{"", "aP", "opAParamsBody", "opAOKBody", "AP"}[cn]
+		var col spec.Schema
+		col.Type = spec.StringOrArray{"string"}
+		col.Description = "collider"
+		doc.Definitions[name] = col
+		orig[name] = true
+	}
+	before := vrfDeepCopy(doc).(*spec.Swagger)
 
 	opts := FlattenOpts{Spec: New(doc), BasePath: "/x/root.json", KeepNames: vrfParam("keepnames", 0) != 0}
 	opts.flattenContext = newContext()
 	err := nameInlinedSchemas(&opts)
+	if c03AnyDangling {
+		// C09: a dangling $ref is met as soon as a schema is moved (every $ref is re-resolved then): an error, never a
+		// panic (no-panic obligations are raised by the executor on every dereference of the step)
+		if c03AnyComplex {
+			vrfAssert("dangling-ref-reported-as-an-error", err != nil)
+		}
+		if kinds&256 != 0 {
+			vrfCover("dangling-ref-and-a-schema-to-move", c03AnyComplex)
+		}
+		return
+	}
 	vrfAssert("no-error", err == nil)
 	if err != nil {
 		return
+	}
+	if vrfParam("tail", 0) != 0 {
+		// the rest of a full Flatten's naming: pointers, OAIGen stripping, and the re-naming loop around them
+		err = stripPointersAndOAIGen(&opts)
+		vrfAssert("no-error-in-the-OAIGen-loop", err == nil)
+		if err != nil {
+			return
+		}
 	}
 
 	// 1. nothing complex is left below the top level of definitions, nor at any operation position
@@ -297,7 +346,7 @@ func vrfH_C03inline() {
 	for i := range pi2.Parameters {
 		positions = append(positions, pi2.Parameters[i].Schema)
 	}
-	if r, ok := op2.Responses.StatusCodeResponses[200]; ok {
+	if r, ok := op2.Responses.StatusCodeResponses[vrfParam("code", 200)]; ok {
 		positions = append(positions, r.Schema)
 	}
 	if op2.Responses.Default != nil {
@@ -333,10 +382,10 @@ func vrfH_C03inline() {
 		s := c03Restore(doc, orig, *rpi.Parameters[i].Schema, 6)
 		rpi.Parameters[i].Schema = &s
 	}
-	if r, ok := rop.Responses.StatusCodeResponses[200]; ok {
+	if r, ok := rop.Responses.StatusCodeResponses[vrfParam("code", 200)]; ok {
 		s := c03Restore(doc, orig, *r.Schema, 6)
 		r.Schema = &s
-		rop.Responses.StatusCodeResponses[200] = r
+		rop.Responses.StatusCodeResponses[vrfParam("code", 200)] = r
 	}
 	if rop.Responses.Default != nil {
 		s := c03Restore(doc, orig, *rop.Responses.Default.Schema, 6)
